@@ -29,6 +29,7 @@ Definition show_entry (e : entry) : bytes :=
 Definition show_err (m : src) (e : err) : bytes :=
   match e with
   | Eof => bs "err Eof"
+  | TooLong => bs "err TooLong"
   | BadType t => match m with Mem => bs "err BadType " ++ dec t | Stream => bs "err BadType" end
   end.
 
